@@ -4,12 +4,14 @@ Generator : the multi-variable query generator of C02 with the templates the pro
             (conjunction whose right side is a different-variable disjunction, conjunction of two such disjunctions,
             >=2 left bindings re-entering the same right side), plus negation.  Each case builds the query TWICE from
             the AST (fresh variables each time): twin A is evaluated with caching enabled, twin B with caching disabled,
-            each twice in a row.
+            each twice in a row, optionally after an evaluation that was abandoned after k results.
 Oracle    : set(A1)==set(B1), set(A2)==set(B2) (multisets when all query variables are selected); 3-way with the
             Python-semantics reference.  A wrapper around IndexedCache.retrieve counts cache retrievals that returned
             >= 1 entry during run A (non-vacuity).
 """
 from __future__ import annotations
+
+from hypothesis import strategies as st
 
 from .. import ast as A
 from ..runner import Outcome, fail, open_features
@@ -26,7 +28,7 @@ RULE = ("cases = C02-style multi-variable queries drawn by Hypothesis (templates
         "enabled and twice under caching disabled; all four results are compared with each other and with the brute-force "
         "reference. Non-trivial = at least one cache retrieval returned an entry during the cached runs (otherwise both "
         "configurations executed the same code) and the result is non-empty; distinct = distinct canonical JSON.")
-BUDGET = {"quick": (4, 500), "thorough": (16, 5000)}
+BUDGET = {"quick": (8, 700), "thorough": (16, 6000)}
 ASSUMPTIONS = ["caching is switched with the public enable_caching()/disable_caching() functions"]
 
 
@@ -39,8 +41,16 @@ def _cfg(tier):
                dom_kinds=("list",), avoid=frozenset(avoid))
 
 
+@st.composite
+def _case(draw, tier):
+    c = draw(query_case(_cfg(tier)))
+    # optionally abandon an evaluation after k results before the compared evaluations (in BOTH configurations)
+    c["pre_partial"] = draw(st.sampled_from([None, None, None, 1, 1, 2]))
+    return c
+
+
 def strategy(tier):
-    return query_case(_cfg(tier))
+    return _case(tier)
 
 
 class _HitCounter:
@@ -72,6 +82,12 @@ def evaluate_config(case, objs, caching: bool):
     (enable_caching if caching else disable_caching)()
     try:
         built = build_query(case, objs)
+        if case.get("pre_partial"):
+            it = built.q.evaluate()
+            for _ in range(case["pre_partial"]):
+                if next(it, None) is None:
+                    break
+            it.close()
         r1 = rows_of(built, list(built.q.evaluate()))
         r2 = rows_of(built, list(built.q.evaluate()))
     finally:
@@ -87,6 +103,8 @@ def check(case) -> Outcome:
     classes = [f for f in feats if f in ("join", "self_join", "or_diff_vars", "or_same_vars", "and_right_or", "not",
                                          "pred", "unconstrained_var", "vars2", "vars3")]
     classes.append("multiset" if multiset else "projected")
+    if case.get("pre_partial"):
+        classes.append("abandoned_evaluation_first")
     try:
         b1, b2 = evaluate_config(case, objs, False)
     except Exception as e:
